@@ -122,7 +122,7 @@ CLAIMED = {
          "says false, or inside an rpc/action output) and terminates on acyclic parents; Entry.Namespace returns the nearest namespace stamp on the way "
          "up, else the namespace of the module at the root (its owner for a submodule), else a fresh empty value; RootNode returns the top of the AST "
          "parent chain. Assumed: AST parents are a function of the node and acyclic, entry parents are acyclic, TriState fields hold one of three values. "
-         "Not decided yet: InstantiatingModule, namespace stamping in merge/Augment, and the composition 'whose text placed it' over the whole pipeline."),
+         "FindModuleByNamespace answers from a coherent cache or, on a miss, with the only loaded module of that namespace (two are an error, none is an error) and caches only what it found; Entry.Modules is the module set at the root; InstantiatingModule returns the name of a loaded module whose namespace is the node's namespace. Stamping: merge stamps what it is given, Augment passes the augment's own namespace (C07). Not decided: the composition 'whose text placed it' over the whole pipeline (bounded under C06/C07: namespaces of every node against the independent expander)."),
    ref="8 (C12)"),
  "C13": dict(
    text=("Deductive proof: Module.Current is the greatest revision name (for every statement order), FullName = name[@current]; Modules.add accepts only "
